@@ -1272,7 +1272,10 @@ def enum_struct_cases(seed, quick):
     lfs = (100, 1, 3, 10, 2)
     for fi, parts in enumerate(small):
         for ni, nm in enumerate(numberings):
-            for pi, pol in enumerate(("pos",) if quick else ("pos", "neg", "bbneg", f"rand{fi}")):
+            flips = ("neg", "bbneg", f"rand{fi}")
+            # thorough: every presentation as built and with one rotating flip; the full product on the first three formulas
+            pols = ("pos",) if quick else ("pos",) + flips if fi < 3 else ("pos", flips[(fi + ni) % 3])
+            for pi, pol in enumerate(pols):
                 add(parts, nm, pol, lfs[(fi + ni + pi) % (2 if quick else 5)], shuffle=None if (ni + pi) % 3 else fi * 100 + ni)
     # polarity flips in the quick tier: a rotating sample instead of the full product
     if quick:
